@@ -131,6 +131,36 @@ class Scenario:
         }
 
 
+def renamed(sc, style="_t", seed=0, unused_control=False):
+    """The same definition with every state / calibration / control symbol renamed to `<style><j>` (a permutation of 0..): `_t<j>` are the
+    names the library itself uses for CSE temporaries, `x<j>` sympy's default ones."""
+    import copy
+
+    rng = random.Random(seed + 77)
+    allsyms = sc.state + sc.calibration + sc.control
+    order = list(range(len(allsyms)))
+    rng.shuffle(order)
+    off = 1 if unused_control else 0
+    ren = {s: sympy.Symbol(f"{style}{j + off}") for s, j in zip(allsyms, order)}
+    sc2 = copy.copy(sc)
+    sc2.state = [ren[s] for s in sc.state]
+    sc2.calibration = [ren[s] for s in sc.calibration]
+    sc2.control = [ren[s] for s in sc.control]
+    sc2.state_model = {ren[k]: v.xreplace(ren) for k, v in sc.state_model.items()}
+    sc2.sensor_models = {k: {r: e.xreplace(ren) for r, e in v.items()} for k, v in sc.sensor_models.items()}
+    sc2.process_noise = {ren[k]: v for k, v in sc.process_noise.items()}
+    sc2.calibration_map = {ren[k]: v for k, v in sc.calibration_map.items()}
+    sc2.renaming = {k.name: v.name for k, v in ren.items()}
+    if unused_control:
+        # a declared control that no expression mentions, spelled like the FIRST temporary: it is an argument of every block
+        extra = sympy.Symbol(f"{style}0")
+        sc2.control = sc2.control + [extra]
+        sc2.process_noise = dict(sc2.process_noise)
+        sc2.process_noise[extra] = 0.75
+        sc2.k = sc.k + 1
+    return sc2
+
+
 def exact(expr, point):
     v = sympy.sympify(expr).subs({k: sympy.Rational(p.numerator, p.denominator) for k, p in point.items()})
     v = sympy.nsimplify(v, rational=True) if not v.is_Rational else v
